@@ -186,8 +186,9 @@ func (f *FnEnc) applyContract(ct *Contract, name string, env map[string]string, 
 	f.st = post
 	if !ct.Pure {
 		var mods []string
+		freshOnly := map[string]bool{}
 		if ct.ModSet {
-			mods = f.e.compsMatching(ct.Modifies)
+			mods, freshOnly = f.e.modSpec(ct.Modifies)
 		} else {
 			mods = f.e.reg.compOrd
 		}
@@ -196,6 +197,9 @@ func (f *FnEnc) applyContract(ct *Contract, name string, env map[string]string, 
 				continue
 			}
 			post.comps[n] = f.fresh(n+"@"+sanitize(site), f.e.reg.comps[n].Sort)
+			if freshOnly[n] {
+				f.assume(frameFact(post.comps[n], pre.comps[n], pre.comps["W"]))
+			}
 		}
 		if post.comps["W"] != pre.comps["W"] {
 			f.assume(fmt.Sprintf("(>= %s %s)", post.comps["W"], pre.comps["W"]))
